@@ -87,6 +87,7 @@ func Gen(run *vlib.Run, seed uint64, tier string) {
 	genPost(run, r.Fork("post"), tier)
 	genOS2(run, r.Fork("os2"), tier)
 	genDerived(run, r.Fork("derived"), tier)
+	genCidBox(run, r.Fork("cidbox"), tier)
 	genVersion(run, r.Fork("version"), tier)
 	genCaret(run, r.Fork("caret"), tier)
 	for k, v := range stats {
